@@ -812,9 +812,57 @@ func propC04(w *World, r *Report) {
 			got = t.String()
 		}
 		reassigned := len(storesTo(c, c.fieldName(runs.model.winFld))) > 0
-		r.Check(got == "recorder.RecorderConfig.Window@param:recorder.RecorderConfig" && !reassigned, "S7", "the processor consults the recording window of its recorder configuration (never reassigned)", w.Pos(c.Ctor.Pos()), got)
+		if t := ci.Stores[runs.model.winFld]; t == nil {
+			// a wrapper struct around the window: the store goes into the wrapper's window field
+			for _, b := range c.Ctor.Blocks {
+				for _, in := range b.Instrs {
+					st, ok := in.(*ssa.Store)
+					if !ok {
+						continue
+					}
+					if inner, ok := st.Addr.(*ssa.FieldAddr); ok && typeIs(st.Val.Type(), "github.com/TheCacophonyProject/window", "Window") {
+						if outer, ok := inner.X.(*ssa.FieldAddr); ok && outer.Field == runs.model.winFld && isPtrTo(outer.X.Type(), c.T) {
+							got = "wrapper{" + ce.termOf(st.Val).String() + "}"
+						}
+					}
+				}
+			}
+		}
+		const confWin = "recorder.RecorderConfig.Window@param:recorder.RecorderConfig"
+		seenObs := map[ssa.Instruction]bool{}
+		wrapped := !typeIs(c.St.Field(runs.model.winFld).Type(), "github.com/TheCacophonyProject/window", "Window")
+		// the state of the window is looked up when it is consulted: window.Window.Active itself, or a wrapper every
+		// path of which calls it (a remembered answer would be stale by the time a recording is started)
+		nObs := 0
+		for _, run := range []*tsRun{runs.nofault, runs.fault} {
+			for _, ev := range eventsOfKind(run, "obs:window", -1) {
+				ci, ok := ev.Instr.(ssa.CallInstruction)
+				if !ok || seenObs[ev.Instr] {
+					continue
+				}
+				seenObs[ev.Instr] = true
+				nObs++
+				callee := ci.Common().StaticCallee()
+				fresh, how := callee != nil && callee.Pkg != nil && callee.Pkg.Pkg.Path() == "github.com/TheCacophonyProject/window", "window.Window.Active"
+				if callee != nil && !fresh && len(callee.Blocks) > 0 {
+					fresh, how = !returnsWithout(callee, func(in ssa.Instruction) bool {
+						c, ok := in.(ssa.CallInstruction)
+						if !ok {
+							return false
+						}
+						cc := c.Common().StaticCallee()
+						return cc != nil && cc.Name() == "Active" && cc.Pkg != nil && cc.Pkg.Pkg.Path() == "github.com/TheCacophonyProject/window"
+					}), "wrapper "+callee.String()
+				}
+				r.Check(fresh, "S7", "the window is consulted afresh at "+w.InstrPos(ev.Instr)+" (window.Window.Active on every path of the call)", w.InstrPos(ev.Instr), how)
+			}
+		}
+		r.Check(nObs >= 1, "S7", "the window is consulted", "-", fmt.Sprint(nObs))
+		r.Check((got == confWin || wrapped && strings.Contains(got, confWin)) && !reassigned, "S7", "the processor consults the recording window of its recorder configuration (never reassigned)", w.Pos(c.Ctor.Pos()), got)
 		if nc := w.Func("recorder", "NewConfig"); nc != nil {
-			ws := storesInto(w, newTermEnv(w), nc, modPath+"/recorder", "RecorderConfig")["Window"]
+			we := newTermEnv(w)
+			we.valueHelpers = true // the window may be built in an extracted helper that is handed the two sections
+			ws := storesInto(w, we, nc, modPath+"/recorder", "RecorderConfig")["Window"]
 			okW := len(ws) == 1 && strings.Contains(ws[0], "window.New(config.Windows.StartRecording@alloc:config.Windows, config.Windows.StopRecording@alloc:config.Windows, config.Location.Latitude@alloc:config.Location, config.Location.Longitude@alloc:config.Location)")
 			r.Check(okW, "S7", "the window is built from windows.start-recording, windows.stop-recording (in this order) and the location", w.Pos(nc.Pos()), strings.Join(ws, " | "))
 		} else {
@@ -1262,6 +1310,12 @@ func propC17(w *World, r *Report) {
 	checkAuxWiring(w, r, runs)
 	checkCleanupOnlyAtStartup(w, r, "V4") // no recorder unlinks the in-progress file of the continuous / test recording
 	checkSinksDistinct(w, r, runs, "V4")  // the continuous and test recordings have recorders of their own
+	if start, ops := recorderFileOps(w); start != nil {
+		// ... and files of their own: two recordings started within one second must not share a name
+		checkTempNameStamp(w, r, "V4", start, ops)
+	} else {
+		r.Unknown("V4", "CPTVFileRecorder.StartRecording", "-", "not found")
+	}
 	checkSinkBookkeeping(w, r, runs.fault, "V3", roleContinuous, roleTest) // a failed start / stop of an auxiliary recording leaves its bookkeeping consistent
 }
 
@@ -1560,4 +1614,34 @@ func checkRingAdvancesOncePerFrame(w *World, r *Report, runs *motionRuns, rule s
 	} else {
 		r.Check(nbad > 0, rule, name2, "-", fmt.Sprintf("%d exit contexts on the parse-error edge", nbad))
 	}
+}
+
+// returnsWithout: some path from the entry of fn reaches a return without executing an instruction satisfying must.
+func returnsWithout(fn *ssa.Function, must func(ssa.Instruction) bool) bool {
+	has := map[*ssa.BasicBlock]bool{}
+	for _, b := range fn.Blocks {
+		for _, in := range b.Instrs {
+			if must(in) {
+				has[b] = true
+			}
+		}
+	}
+	seen := map[*ssa.BasicBlock]bool{}
+	var walk func(b *ssa.BasicBlock) bool
+	walk = func(b *ssa.BasicBlock) bool {
+		if seen[b] || has[b] {
+			return false
+		}
+		seen[b] = true
+		if _, ok := b.Instrs[len(b.Instrs)-1].(*ssa.Return); ok {
+			return true
+		}
+		for _, s := range b.Succs {
+			if walk(s) {
+				return true
+			}
+		}
+		return false
+	}
+	return len(fn.Blocks) > 0 && walk(fn.Blocks[0])
 }
